@@ -66,6 +66,8 @@ type Report struct {
 	Funcs      map[string]bool
 	SolverSecs float64
 	Wall       float64
+	// ExploreSecs is the wall time of the symbolic-execution phase.
+	ExploreSecs float64
 }
 
 // Config for a run.
@@ -127,6 +129,7 @@ func Check(m *sx.Machine, units []*Unit, cfg Config) *Report {
 		}
 		ewg.Wait()
 	}
+	rep.ExploreSecs = time.Since(t0).Seconds()
 	for i, u := range units {
 		rep.Units++
 		rep.Funcs[u.Func] = true
